@@ -76,6 +76,21 @@ int main(int argc, char **argv)
     spec = argv[rank + 2];
     if (spec[0] != 'o' || !(end = strchr(spec, ':')))
         return 202;
+    {   /* a T command records a SIGTERM from its very beginning (before it sleeps or writes: pdsh -k may send the signal
+         * the moment it has read what is written below) */
+        const char *e2 = end + 1;
+        if (*e2 == 'W' && strchr(e2, '_'))
+            e2 = strchr(e2, '_') + 1;
+        if (*e2 == 'T') {
+            sigset_t none;
+            const char *d = getenv("VERIF_KTRACE");
+            if (d)
+                snprintf(trace_term, sizeof trace_term, "%s/term.%d", d, rank);
+            sigemptyset(&none);
+            sigprocmask(SIG_SETMASK, &none, NULL);
+            signal(SIGTERM, on_term_trace);
+        }
+    }
     touch(getenv("VERIF_KTRACE"), "start", rank);
     if (end[1] == 'W') {            /* sleep BEFORE anything is written */
         int ms = atoi(end + 2);
